@@ -1,18 +1,22 @@
 #!/bin/bash
-# tools/seeded.sh [seed-id...]: apply each seeded mutant (/verif/seeded/<id>/patch.diff) to /repo, run the checks named
-# in its meta.json (quick tier), revert.  One line per (mutant, check).
+# tools/seeded.sh [seed-id...]: apply each seeded mutant (/verif/seeded/<id>/patch.diff) to /repo, run the checks recorded
+# as catching it in its meta.json (quick tier) until one reports rc=1, revert.  One line per (mutant, check); a final
+# "MISSED <id>" line for every mutant that no check reported.
 cd /verif
 ids="${@:-$(ls seeded)}"
 for id in $ids; do
   d=/verif/seeded/$id
-  checks=$(/venv/bin/python -c "import json;print(' '.join(json.load(open('$d/meta.json'))['checks']))")
+  checks=$(/venv/bin/python -c "import json;m=json.load(open('$d/meta.json'));print(' '.join(m.get('caught_by') or m.get('checks_run') or m['checks']))")
   if ! git -C /repo apply --check $d/patch.diff 2>/dev/null; then echo "$id: PATCH DOES NOT APPLY"; continue; fi
   git -C /repo apply $d/patch.diff
+  hit=0
   for c in $checks; do
     out=$(./vcheck $c 2>&1); rc=$?
     kinds=$(echo "$out" | grep "unlisted signature" | head -2 | sed 's/.*unlisted signature //' | tr '\n' ' ' | cut -c1-160)
     echo "$id $c rc=$rc $kinds"
+    if [ $rc = 1 ]; then hit=1; break; fi
   done
+  [ $hit = 0 ] && echo "MISSED $id"
   git -C /repo checkout -- .
 done
 git -C /repo status --short | head -3
